@@ -227,7 +227,8 @@ impl Rt for Opt {
     type Ctx = ();
     fn chunk(tier: Tier, _i: usize) -> Vec<(Ipv6OptionRepr<'static>, ())> {
         let mut v = vec![(Ipv6OptionRepr::Pad1, ())];
-        for n in pick(tier, &[0u8, 255, 1, 2, 4], 3) {
+        // incl. the PadN sizes that complete 8-octet alignment (total 2+n = 7, 8, 9)
+        for n in pick(tier, &[0u8, 255, 6, 5, 7, 1, 2, 4, 254], 4) {
             v.push((Ipv6OptionRepr::PadN(n), ()));
         }
         for ra in [
@@ -242,7 +243,7 @@ impl Rt for Opt {
         // `Unknown` carries every type the build does not interpret (incl. the RPL option in
         // a build without proto-rpl); `data` is exactly `length` bytes (what the parser yields)
         for t in pick(tier, &[Ipv6OptionType::Unknown(0xc2), Ipv6OptionType::Rpl, Ipv6OptionType::Unknown(2), Ipv6OptionType::Unknown(0x3e), Ipv6OptionType::Unknown(0xff)], 3) {
-            for l in pick(tier, &[0u8, 255, 1, 2], 3) {
+            for l in pick(tier, &[0u8, 255, 6, 1, 2, 5, 7, 254], 4) {
                 v.push((Ipv6OptionRepr::Unknown { type_: t, length: l, data: pat(l as usize) }, ()));
             }
         }
@@ -278,7 +279,7 @@ impl Rt for Opt {
         }
     }
     fn domain_doc() -> &'static str {
-        "Pad1; PadN(n) n in {0,1,2,4,255}; RouterAlert {MLD, RSVP, ActiveNetworks, Unknown(3), Unknown(0xffff)}; Unknown{type in {0xc2, Rpl(0x63, not interpreted in this build), 2, 0x3e, 0xff}, length {0,1,2,255}, data of exactly length bytes}"
+        "Pad1; PadN(n) n in {0,1,2,4,5,6,7 (around 8-octet alignment),254,255}; RouterAlert {MLD, RSVP, ActiveNetworks, Unknown(3), Unknown(0xffff)}; Unknown{type in {0xc2, Rpl(0x63, not interpreted in this build), 2, 0x3e, 0xff}, length {0,1,2,5,6,7,254,255}, data of exactly length bytes}"
     }
 }
 
